@@ -268,6 +268,7 @@ func run(tier string, shard, nsh int, res *ev.Result) {
 	var jobs []func(lc *local)
 	if shard == 0 {
 		jobs = append(jobs, func(lc *local) { builtCheck(res, lc) })
+		jobs = append(jobs, func(lc *local) { lookupSequences(res, lc); inputIntact(res, lc) })
 	}
 	for _, L := range lens {
 		L := L
@@ -399,6 +400,17 @@ func run(tier string, shard, nsh int, res *ev.Result) {
 }
 
 func replay(check string, raw json.RawMessage, res *ev.Result) {
+	if check == "coil-sequence" {
+		var c SeqCase
+		json.Unmarshal(raw, &c)
+		var lc local
+		if c.Pattern == "input-intact" {
+			inputIntact(res, &lc)
+		} else {
+			evalLookupSeq(c, res, &lc)
+		}
+		return
+	}
 	if check == "coil-built" {
 		var c BuiltCase
 		json.Unmarshal(raw, &c)
